@@ -70,7 +70,9 @@ func GetMessageOfEviction(ssn *framework.Session, actionType framework.ActionTyp
 		msg := api.GetReclaimMessage(preempteeTask, preemptorJob)
 
 		var queueDetails string
-		if reclaimeeQueue.ParentQueue == reclaimerQueue.ParentQueue {
+		// a top-level queue has no parent queue to report on: fall back to the queues themselves
+		if reclaimeeQueue.ParentQueue == reclaimerQueue.ParentQueue ||
+			reclaimerParentQueue == nil || reclaimeeParentQueue == nil {
 			queueDetails = getReclaimMessageQueuesDetails(ssn, preempteeTask, preemptorJob,
 				reclaimerQueue, reclaimeeQueue)
 		} else {
